@@ -65,6 +65,25 @@ Proof. exact frame_meta. Qed.
    (c) on an idle app, an event whose handler returns Command::done() returns no effect, appends exactly
    itself to the log, starts nothing and leaves the app idle - nothing had been left behind by the calls
    before it, nothing was deferred to it. *)
+(* Exactly-once hand-over at the core's request channel, for every app, fuel and core state: during a call
+   the channel only grows - no step (polling any task of any command at any depth, dropping finished
+   commands, spawning what update returns) removes or rewrites a request already in it - and the call then
+   returns the WHOLE channel, leaves it empty and records every returned request once in the shell's table.
+   An effect that reached the channel is therefore in the return value of exactly the call during which it
+   was requested: not dropped, not duplicated, not deferred to a later call. *)
+From Crux Require Rt.Perm.
+Theorem C01_requests_only_accumulate : forall fuel0 fuel hs k k',
+  process fuel0 fuel hs k = Some k' -> exists requested, hout (k_H k') = hout (k_H k) ++ requested.
+Proof. exact process_hout. Qed.
+Theorem C01_call_hands_over_the_whole_channel : forall code k,
+  fst (take_out code k) = OCall code (map oeff_of (hout (k_H k))) (k_log k) /\
+  hout (k_H (snd (take_out code k))) = [] /\
+  k_reqs (snd (take_out code k)) = k_reqs k ++ map (fun e => mkRq e false) (hout (k_H k)).
+Proof. exact take_out_hands_over_everything. Qed.
+Theorem C01_no_runtime_step_touches_requested_effects : forall fuel cid w H r H',
+  poll_next fuel cid w H = Some (r, H') -> exists requested, hout H' = hout H ++ requested.
+Proof. exact Perm.hout_poll_next. Qed.
+
 From Crux Require Rt.Ref Rt.RefCore Rt.RefCoreProps Rt.RefQuiesce.
 Theorem C01_ref_rerun_is_silent : forall fuel en c n c' n' o,
   Ref.run fuel en c n = Some (c', n', o) -> forall g m, fuel <= g -> Ref.run g en c' m = Some (c', m, Ref.ro0).
